@@ -4,6 +4,7 @@ subsystem).  Helper lemmas are in Proofs/C06*.  Every theorem is about Model/C06
 Spec/C06), whose chunk limits, channels, struct formats and lock discipline are regenerated from /repo (Gen/C06).
 -/
 import CfVerif.Proofs.C06Safety
+import CfVerif.Proofs.C06Read
 namespace CfVerif.C06
 open CfVerif
 
@@ -96,6 +97,46 @@ raise before anything was changed (a reply too short to parse): the subsystem st
 theorem state_stays_wellformed (evs : List Ev) (hwf : ∀ e ∈ evs, e.WF) : (run Variant.fixed St.init evs).1.Ok :=
   run_ok St.init_ok hwf
 
+/-! ## read_exact
+
+Closed system (Spec/C06): the library, the device (one byte image per memory; a request outside the image, to an
+unknown memory or forced to fail by `faults` is answered with an error status) and the network, which delivers the
+replies in flight in ANY order, ANY number of times (`deliver i keep`), or drops the link (`drop`).
+`Act.OkForRead id`: requests are well-formed, nothing is forged (`inject`; assumption A1 - see
+`stale_reply_counterexample`), and memory `id` itself is not written during the history (other memories are). -/
+
+/-- **Every successful read returns exactly the bytes the device holds** at `[addr, addr + len)`, for every memory,
+address and length (0 included), whatever else goes on (other reads, writes to other memories, error statuses,
+duplicated / delayed / reordered replies, link drops). -/
+theorem read_exact (d : Device) (faults : List UInt8) (acts : List Act) (id : Nat) (hid : id < 256)
+    (hacts : ∀ a ∈ acts, a.OkForRead id) (tag addr : Nat) (data : List UInt8)
+    (h : Out.readOk tag id addr data ∈ (runSys Variant.fixed (Sys.init d faults) acts).outs) :
+    ∃ len m, Act.read tag id addr len ∈ acts ∧ d[id]? = some m ∧ data = slice m addr len ∧ addr + len ≤ m.length := by
+  have := (RInv.run hid acts hacts (RInv.init id d faults)).log tag addr data h
+  simpa using this
+
+/-- **Each transfer is split into messages within the protocol limits**: every read request packet sent for memory
+`id` is chunk number `j` of a read that was issued: it asks for `min(readMax, len - j*readMax)` bytes at
+`addr + j*readMax` (so: at most `readMax ≤ 24` bytes, chunks of one read contiguous and non-overlapping, all inside
+the requested range). -/
+theorem read_requests_are_chunks (d : Device) (faults : List UInt8) (acts : List Act) (id : Nat) (hid : id < 256)
+    (hacts : ∀ a ∈ acts, a.OkForRead id) (bytes : List UInt8)
+    (h : Out.send Gen.C06.chanRead bytes ∈ (runSys Variant.fixed (Sys.init d faults) acts).outs)
+    (hb : bytes.head? = some (UInt8.ofNat id)) :
+    ∃ tag addr len j, Act.read tag id addr len ∈ acts ∧ j * Gen.C06.readMax ≤ len ∧
+      bytes = readReqBytes id (addr + j * Gen.C06.readMax) (rdLen (len - j * Gen.C06.readMax)) ∧
+      rdLen (len - j * Gen.C06.readMax) ≤ readLimit := by
+  obtain ⟨tag, addr, len, h1, j, h2, h3⟩ := (RInv.run hid acts hacts (RInv.init id d faults)).sends bytes h hb
+  exact ⟨tag, addr, len, j, by simpa using h1, h2, h3, Nat.le_trans (readLen_le _) gen_readMax_le⟩
+
+/-- A1 is necessary: with a forged / stale reply (here: the reply to an earlier, longer read of the same address
+delivered again) a read "succeeds" with bytes that are not `[addr, addr + len)` of the device.  The protocol carries
+no request identity, so no implementation of this protocol can exclude it. -/
+theorem stale_reply_counterexample :
+    Out.readOk 2 0 0 [1, 2, 3] ∈ (runSys Variant.fixed (Sys.init [[1, 2, 3, 4]] [])
+      [.read 1 0 0 3, .deliver 0 false, .read 2 0 0 1, .inject 1 [0, 0, 0, 0, 0, 0, 1, 2, 3]]).outs := by
+  decide +kernel
+
 /-! ## D9: the code before the repair -/
 
 /-- one 1-byte write, its acknowledgement, the same acknowledgement again -/
@@ -116,6 +157,14 @@ theorem d9_wedged :
     (step Variant.live (run Variant.live St.init d9Witness).1 .disconnect).res = .hang := by decide
 
 /-! ## Non-vacuity -/
+
+/-- a 41-byte read at address 3 of memory 1 (45 bytes): three chunks, with duplicated replies on the way -/
+example : Out.readOk 7 1 3 ((List.range 41).map fun i => UInt8.ofNat (i + 3)) ∈
+    (runSys Variant.fixed (Sys.init [[], (List.range 45).map UInt8.ofNat] [])
+      [.read 7 1 3 41, .deliver 0 true, .deliver 0 false, .deliver 0 true, .deliver 0 false, .deliver 0 false]).outs := by
+  decide +kernel
+example : ∀ a ∈ [Act.read 7 1 3 41, .deliver 0 true, .write 8 0 0 [1] false false, .drop], a.OkForRead 1 := by
+  simp [Act.OkForRead, Ev.WF]
 
 example : (run Variant.fixed St.init d9Witness).2 = [.send 2 [0, 0, 0, 0, 0, 0x2a], .writeOk 1 0 0] := by decide
 
